@@ -70,7 +70,9 @@ def once_rule(run, rule, ast):
         const_init = v.get("constexpr") or init is None or not any(
             (x.get("k") in ("CallExpr", "CXXMemberCallExpr", "CXXOperatorCallExpr")) or (x.get("k") == "DeclRefExpr" and x["ref"].get("storage") in ("global", "local") and x["ref"].get("dk") != "EnumConstant")
             for x in astq.walk(init))
-        ok = bool(rec) or bool(const_init)
+        # a dynamic initialiser that touches nothing of the library (a system constant, say) does not depend on any update
+        lib = init is not None and any(("yorel::yomm2" in (x.get("callee") or "")) or (x.get("k") in ("DeclRefExpr", "MemberExpr") and "yorel::yomm2" in (astq.refname(x) or "")) for x in astq.walk(init))
+        ok = bool(rec) or bool(const_init) or not lib
         run.instance(rule, "function-local static `%s` (%s) is the registration record or a compile-time constant" % (v["name"].split("::")[-1], v["file"].split("yomm2/")[-1] + ":" + str(v["line"])), (v["file"], v["line"]), ok=ok)
         if not ok:
             run.violation(rule, "static-local|%s:%s" % (v["file"].split("yomm2/")[-1], v["name"].split("::")[-1]), "function-local static `%s` is initialised once per process from `%s`: what it holds was established by one update and survives the following ones" % (
